@@ -68,12 +68,12 @@ Fixpoint tlookup (tb : list (text * expr)) (t : text) : expr :=
   | (t', e) :: r => if t =? t' then e else tlookup r t
   end.
 
-Fixpoint run_hist (parse : text -> expr) (st : istate) (h : list text) : list sx :=
+Fixpoint run_hist (parse : text -> module -> expr * module) (st : istate) (h : list text) : list sx :=
   match h with
   | [] => []
   | t :: r =>
-      let (rr, st1) := run_cached compiled_args_rechecked setitem_clears_compiled_cache parse st t in
-      SL [sx_of_res rr; sx_of_store (vars st1); sx_of_res (fst (eval_pure (parse t) (vars st)))]
+      let (rr, st1) := run_cached compiled_args_rechecked setitem_clears_compiled_cache parse_cache_key_has_module parse st t in
+      SL [sx_of_res rr; sx_of_store (vars st1); sx_of_res (fst (eval_pure (fst (parse t (cur st))) (vars st)))]
         :: run_hist parse st1 r
   end.
 
@@ -110,7 +110,7 @@ Definition dispatch (x : sx) : sx :=
   | SL [SS t; SL tb; SL h] =>
       if is_tag "hist" t then
         match table_of_sx tb, sx_get_zs h with
-        | Some tb', Some h' => SL (run_hist (tlookup tb') (fresh []) h')
+        | Some tb', Some h' => SL (run_hist (fun t m => (tlookup tb' t, m)) (fresh []) h')
         | _, _ => sx_err "hist"
         end
       else sx_err "op"
